@@ -169,6 +169,7 @@ package dbft
 // checkConfig is what New runs on the assembled configuration: when it accepts, the callbacks it looks at are present
 // (the other callbacks have non-nil defaults; an option that sets one of them to nil is outside A4).
 //@ func checkConfig
+//@   loops 0
 //@   ensures [C11] @requiredCallbacks implies(result == nil, cfg.GetKeyPair != nil && cfg.Timer != nil && cfg.CurrentHeight != nil && cfg.CurrentBlockHash != nil
 //@        && cfg.GetValidators != nil && cfg.NewBlockFromContext != nil && cfg.NewConsensusPayload != nil && cfg.NewPrepareRequest != nil
 //@        && cfg.NewPrepareResponse != nil && cfg.NewChangeView != nil && cfg.NewCommit != nil && cfg.NewRecoveryRequest != nil && cfg.NewRecoveryMessage != nil)
@@ -179,17 +180,21 @@ package dbft
 // ---- C06 ----
 
 //@ func (*Context).N
+//@   loops 0
 //@   ensures [C06] result == len(c.Validators)
 //@   modifies nothing
 //@ func (*Context).F
+//@   loops 0
 //@   requires nvalid()
 //@   ensures [C06,C01,C02,C04,C07] result == specF(len(c.Validators))
 //@   modifies nothing
 //@ func (*Context).M
+//@   loops 0
 //@   requires nvalid()
 //@   ensures [C06,C01,C02,C04,C07] result == specM(len(c.Validators))
 //@   modifies nothing
 //@ func (*Context).GetPrimaryIndex
+//@   loops 0
 //@   requires nvalid()
 //@   ensures [C06,C04] @formula result == emod(c.BlockIndex - viewNumber, len(c.Validators))
 //@   ensures [C06] @range 0 <= result && result < len(c.Validators)
@@ -432,47 +437,56 @@ package dbft
 // ---- context.go ----
 
 //@ func (*Context).CountCommitted
+//@   loops 1
 //@   requires wf()
 //@   loop 1: invariant 0 <= count && count <= i && i <= len(c.CommitPayloads)
 //@   ensures 0 <= count && count <= len(c.CommitPayloads)
 //@   modifies nothing
 //@ func (*Context).CountFailed
+//@   loops 1
 //@   requires wf()
 //@   loop 1: invariant 0 <= count && count <= i && i <= len(c.LastSeenMessage)
 //@   ensures 0 <= count && count <= len(c.LastSeenMessage)
 //@   modifies nothing
 
 //@ func emptyReusableSlice
+//@   loops 0
 //@   requires n >= 0
 //@   ensures [C05,C11,C04,C02,C03] @sizedAndEmpty len(result) == n && forall(k, 0, n, result[k] == nil)
 //@   modifies nothing
 
 // C13: the "sent" predicates are the implicit watch-only filters of checkPreCommit, onChangeView, onTimeout, ...
 //@ func (*Context).ResponseSent
+//@   loops 0
 //@   requires wf()
 //@   ensures [C13] @filtersWatchOnly result == (c.MyIndex >= 0 && !c.Config.WatchOnly() && c.PreparationPayloads[c.MyIndex] != nil)
 //@   modifies nothing
 //@ func (*Context).PreCommitSent
+//@   loops 0
 //@   requires wf()
 //@   ensures [C13] @filtersWatchOnly result == (c.MyIndex >= 0 && !c.Config.WatchOnly() && c.PreCommitPayloads[c.MyIndex] != nil)
 //@   modifies nothing
 //@ func (*Context).CommitSent
+//@   loops 0
 //@   requires wf()
 //@   ensures [C13] @filtersWatchOnly result == (c.MyIndex >= 0 && !c.Config.WatchOnly() && c.CommitPayloads[c.MyIndex] != nil)
 //@   modifies nothing
 //@ func (*Context).isAntiMEVExtensionEnabled
+//@   loops 0
 //@   requires cfgOK()
 //@   ensures [C07] @enabled result == amev()
 //@   modifies nothing
 
 // C16: the subscription callback is used only when the maximum-block-time extension is configured.
 //@ func (*Context).subscribeForTransactions
+//@   loops 0
 //@   requires [C16] @configured c.Config.MaxTimePerBlock != nil
 //@   requires cfgOK()
 //@   ensures c.txSubscriptionOn
 //@   modifies Context.txSubscriptionOn
 //@ callers [C16] Config.SubscribeForTxs : (*Context).subscribeForTransactions
 //@ func (*Context).reset
+//@   loops 1
 //@   requires base() && implies(view > 0, wf() && slot() && tip() && view > self.ViewNumber)
 //@   requires ts + self.TimestampIncrement <= 18446744073709551615
 //@   use INV
@@ -504,10 +518,12 @@ package dbft
 //@        && max(l + q*incr + incr, ((a*incr + r + q*incr) / incr) * incr) == max(l + incr, ((a*incr + r) / incr) * incr) + q*incr)
 //@ pred truncClock() = (gClock / self.TimestampIncrement) * self.TimestampIncrement
 //@ func (*Context).getTimestamp
+//@   loops 0
 //@   requires wf()
 //@   ensures [C15,C14] @trunc result == truncClock()
 //@   modifies gClock
 //@ func (*Context).Fill
+//@   loops 1
 //@   requires wf()
 //@   loop 1: invariant len(c.TransactionHashes) == len(txx) && !isnil(c.Transactions) && sametable(txx, gPool)
 //@   loop 1: invariant forall(j, 0, i, c.TransactionHashes[j] == txx[j].Hash() && has(c.Transactions, txx[j].Hash()))
@@ -522,7 +538,7 @@ package dbft
 //@   modifies Context.Nonce, Context.Timestamp, Context.TransactionHashes, Context.Transactions, gClock, gPool
 //@ func (*Context).makePrepareRequest
 //@   inline
-//@   at call c.Config.NewPrepareRequest: assert [C15] @proposalFields arg0 == c.Timestamp && arg1 == c.Nonce && sametable(arg2, c.TransactionHashes)
+//@   at call *.NewPrepareRequest: assert [C15] @proposalFields arg0 == c.Timestamp && arg1 == c.Nonce && sametable(arg2, c.TransactionHashes)
 // C15: the proposal fields are written only when a proposal is made, received, or the context is reset.
 //@ writers [C15] Context.Timestamp : (*Context).Fill, (*DBFT).onPrepareRequest
 //@ writers [C15] Context.Nonce : (*Context).Fill, (*DBFT).onPrepareRequest
@@ -534,6 +550,7 @@ package dbft
 //@ writers [C02] Context.Validators : (*Context).reset
 
 //@ func (*Context).CreateBlock
+//@   loops 1
 //@   requires wf() && slot()
 //@   ensures result == c.block
 //@   ensures implies(old(canMakeHeader()) || old(c.block) != nil, result != nil)
@@ -542,11 +559,12 @@ package dbft
 //@   ensures implies(c.header != nil, old(canMakeHeader()))
 //@   ensures wf() && slot()
 //@   loop 1: invariant len(txx) == len(c.TransactionHashes) && c.block != nil && forall(j, 0, i, txx[j] == c.Transactions[c.TransactionHashes[j]])
-//@   at call c.block.SetTransactions: assert [C02] @blockTxs len(arg0) == len(c.TransactionHashes) && forall(j, 0, len(arg0), arg0[j] == c.Transactions[c.TransactionHashes[j]])
+//@   at call *.SetTransactions: assert [C02] @blockTxs len(arg0) == len(c.TransactionHashes) && forall(j, 0, len(arg0), arg0[j] == c.Transactions[c.TransactionHashes[j]])
 //@   requires [C02] @complete complete()
 //@   ensures [C02] @complete complete()
 //@   modifies Context.block, Context.header, gBlockTxSet
 //@ func (*Context).CreatePreBlock
+//@   loops 1
 //@   requires wf() && slot() && amev()
 //@   ensures result == c.preBlock
 //@   ensures implies(old(rsor()) || old(c.preBlock) != nil, result != nil)
@@ -554,20 +572,22 @@ package dbft
 //@   ensures implies(c.preBlock != nil, old(rsor()))
 //@   ensures wf() && slot()
 //@   loop 1: invariant len(txx) == len(c.TransactionHashes) && c.preBlock != nil && forall(j, 0, i, txx[j] == c.Transactions[c.TransactionHashes[j]])
-//@   at call c.preBlock.SetTransactions: assert [C02] @preBlockTxs len(arg0) == len(c.TransactionHashes) && forall(j, 0, len(arg0), arg0[j] == c.Transactions[c.TransactionHashes[j]])
+//@   at call *.SetTransactions: assert [C02] @preBlockTxs len(arg0) == len(c.TransactionHashes) && forall(j, 0, len(arg0), arg0[j] == c.Transactions[c.TransactionHashes[j]])
 //@   requires [C02] @complete complete()
 //@   ensures [C02] @complete complete()
 //@   modifies Context.preBlock, Context.preHeader, gPreBlockTxSet
 //@ func (*Context).MakeHeader
+//@   loops 0
 //@   requires wf() && slot()
 //@   ensures result == c.header
 //@   ensures implies(old(canMakeHeader()) || old(c.header) != nil, result != nil)
 //@   ensures implies(result != nil, old(canMakeHeader()))
 //@   ensures implies(old(c.header) != nil, result == old(c.header))
-//@   at call c.Config.NewBlockFromContext: assert [C07] @afterPreBlock implies(amev(), c.preBlockProcessed)
+//@   at call *.NewBlockFromContext: assert [C07] @afterPreBlock implies(amev(), c.preBlockProcessed)
 //@   modifies Context.header
 //@ callers [C07,C02] Config.NewBlockFromContext : (*Context).MakeHeader
 //@ func (*Context).MakePreHeader
+//@   loops 0
 //@   requires wf() && slot() && amev()
 //@   ensures result == c.preHeader
 //@   ensures implies(old(rsor()) || old(c.preHeader) != nil, result != nil)
@@ -578,6 +598,7 @@ package dbft
 // ---- send.go ----
 
 //@ func (*DBFT).broadcast
+//@   loops 0
 //@   requires wf() && msg != nil
 //@   requires [C13] @silent notWatchOnly()
 //@   requires msg.ValidatorIndex() == self.MyIndex
@@ -598,22 +619,24 @@ package dbft
 //@ callers [C13,C03] Config.Broadcast : (*DBFT).broadcast
 
 //@ func (*DBFT).sendPrepareRequest
+//@   loops 0
 //@   use U
 //@   use UNDECIDED
 //@   ensures [C10] @arms gTimerArms > old(gTimerArms)
 //@   ensures [C16,C14] @rttReference implies(gBroadcasts == old(gBroadcasts), unchanged(self.prepareSentTime))
 //@   ensures [C16] @forcedProposes implies(force || self.Config.MaxTimePerBlock == nil, gBroadcasts > old(gBroadcasts))
 // a proposal goes out only if it was forced, or no maximum block time is configured, or the pool just read was not empty
-//@   at call d.broadcast: assert [C16] @emptyNotProposed force || self.Config.MaxTimePerBlock == nil || len(gPool) > 0
-//@   at call d.checkPrepare: assert [C16] @unsubscribedOnceProposed !self.txSubscriptionOn
+//@   at call *.broadcast: assert [C16] @emptyNotProposed force || self.Config.MaxTimePerBlock == nil || len(gPool) > 0
+//@   at call *.checkPrepare: assert [C16] @unsubscribedOnceProposed !self.txSubscriptionOn
 //@   ensures [C16] @emptyWaitsMax implies(gBroadcasts == old(gBroadcasts), self.Config.MaxTimePerBlock != nil && !force && self.txSubscriptionOn
 //@        && gTimerD == self.maxTimePerBlock - self.timePerBlock && gTimerH == self.BlockIndex && gTimerV == self.ViewNumber && self.ViewNumber == old(self.ViewNumber))
 //@   requires [C13] @silent notWatchOnly()
 //@   requires [C03,C04] @oneProposal self.MyIndex == self.PrimaryIndex && !rsor() && gPrep == nil
 //@   wraps * unless aview()
 //@ func (*DBFT).sendChangeView
+//@   loops 0
 //@   use U
-//@   at call d.makeChangeView: assert [C14] @stamp arg0 == gClock
+//@   at call *.makeChangeView: assert [C14] @stamp arg0 == gClock
 //@   use UNDECIDED
 //@   ensures [C12] @speaks implies(notWatchOnly(), gBroadcasts > old(gBroadcasts))
 // asked for any reason but a timeout, the node does ask to leave the view (it has its own request for a higher view on
@@ -623,6 +646,7 @@ package dbft
 //@   ensures [C10] @arms notWatchOnly() == false || gTimerArms > old(gTimerArms)
 //@   wraps * unless aview()
 //@ func (*DBFT).sendPrepareResponse
+//@   loops 0
 //@   requires wf() && slot() && prep()
 //@   requires [C13] @silent notWatchOnly()
 //@   requires rsor()
@@ -639,6 +663,7 @@ package dbft
 //@   ensures [C03] @said said()
 //@   modifies Context.PreparationPayloads, gBroadcasts, gLastBcast, gPrep, gMaxOwnView
 //@ func (*DBFT).sendPreCommit
+//@   loops 0
 //@   requires wf() && slot()
 //@   requires [C13] @silent notWatchOnly()
 //@   requires [C07] @enabled amev()
@@ -653,6 +678,7 @@ package dbft
 //@   ensures [C02] @complete complete()
 //@   modifies Context.PreCommitPayloads, Context.preBlock, Context.preHeader, gBroadcasts, gLastBcast, gPreCommit, gMaxOwnView, gPreBlockTxSet
 //@ func (*DBFT).sendCommit
+//@   loops 0
 //@   requires wf() && slot() && verc()
 //@   requires [C13] @silent notWatchOnly()
 //@   requires [C04] @evidence implies(!amev(), rsor() && hasAllTx() && prepCount() >= specM(NN()) && prep())
@@ -671,33 +697,36 @@ package dbft
 //@   modifies Context.CommitPayloads, Context.header, gBroadcasts, gLastBcast, gCommit, gMaxOwnView
 //@ func (*Context).makeChangeView
 //@   inline
-//@   at call c.Config.NewChangeView: assert [C14] @stamp arg2 == ts
+//@   at call *.NewChangeView: assert [C14] @stamp arg2 == ts
 //@ func (*Context).makeCommit
 //@   inline
-//@   at call b.Sign: assert [C07] @afterPreBlock implies(amev(), c.preBlockProcessed)
+//@   at call *.Sign: assert [C07] @afterPreBlock implies(amev(), c.preBlockProcessed)
 // C13: a block signature and pre-commit data are produced in these two places only, and never on a watch-only node
-//@   at call b.Sign: assert [C13] @silent notWatchOnly()
+//@   at call *.Sign: assert [C13] @silent notWatchOnly()
 //@ func (*Context).makePreCommit
 //@   inline
-//@   at call preB.SetData: assert [C13] @silent notWatchOnly()
+//@   at call *.SetData: assert [C13] @silent notWatchOnly()
 //@ callers [C13] Block.Sign : (*Context).makeCommit
 //@ callers [C13] PreBlock.SetData : (*Context).makePreCommit
 //@ func (*DBFT).sendRecoveryRequest
+//@   loops 0
 //@   requires wf() && slot()
 // C14: the timestamps put into requests are the reading of the injected clock itself (nothing is done to it on the way)
-//@   at call d.NewRecoveryRequest: assert [C14] @stamp arg0 == gClock
+//@   at call *.NewRecoveryRequest: assert [C14] @stamp arg0 == gClock
 //@   ensures [C11] @wf wf()
 //@   requires [C13] @silent notWatchOnly()
 //@   requires [C03] @said said()
 //@   ensures gMaxOwnView <= self.ViewNumber && gMaxOwnView >= old(gMaxOwnView) && gBroadcasts == old(gBroadcasts) + 1 && txKept()
 //@   modifies Context.MissingTransactions, Context.Transactions, gBroadcasts, gLastBcast, gClock, gMaxOwnView
 //@ func (*Context).makeRecoveryMessage
+//@   loops 4
 //@   requires wf() && slot()
 //@   requires [C03] @said said()
 //@   ensures result != nil && (result.ValidatorIndex() == self.MyIndex || self.MyIndex < 0)
 //@   ensures result.Type() == RecoveryMessageType && result.ViewNumber() == self.ViewNumber
 //@   modifies nothing
 //@ func (*DBFT).sendRecoveryMessage
+//@   loops 0
 //@   requires wf() && slot()
 //@   requires [C13] @silent notWatchOnly()
 //@   requires [C03] @said said()
@@ -708,37 +737,41 @@ package dbft
 // ---- check.go ----
 
 //@ func (*DBFT).checkPrepare
+//@   loops 1
 //@   use U
 //@   use UNDECIDED
 //@   requires [C13] @silent notWatchOnly()
 //@   loop 1: invariant 0 <= count && count <= idx && idx <= NN() && implies(hasRequest, rsor())
 //@   loop 1: invariant [C04] @counts count == count(j, 0, idx, curPrep(j))
 //@ func (*DBFT).checkPreCommit
+//@   loops 1
 //@   use U
 //@   use UNDECIDED
 //@   requires [C07] @enabled amev()
 //@   requires rsor()
 //@   loop 1: invariant 0 <= count && count <= idx && idx <= NN()
 //@   loop 1: invariant [C07,C02] @counts count == count(j, 0, idx, curP(j))
-//@   at call d.ProcessPreBlock: assert [C07,C02] @certificate !self.preBlockProcessed && preCommitCount() >= specM(NN()) && hasAllTx() && arg0 == self.preBlock && arg0 != nil
-//@   at call d.ProcessPreBlock: assert [C02] @verified verp()
-//@   at call d.ProcessPreBlock: assert [C02] @complete arg0 == self.preBlock && gPreBlockTxSet == arg0 && prop() && tip()
+//@   at call *.ProcessPreBlock: assert [C07,C02] @certificate !self.preBlockProcessed && preCommitCount() >= specM(NN()) && hasAllTx() && arg0 == self.preBlock && arg0 != nil
+//@   at call *.ProcessPreBlock: assert [C02] @verified verp()
+//@   at call *.ProcessPreBlock: assert [C02] @complete arg0 == self.preBlock && gPreBlockTxSet == arg0 && prop() && tip()
 //@ callers [C07,C02] Config.ProcessPreBlock : (*DBFT).checkPreCommit
 //@ writers [C07] Context.preBlockProcessed : (*DBFT).checkPreCommit, (*Context).reset
 //@ func (*DBFT).checkCommit
+//@   loops 1
 //@   use U
 //@   use UNDECIDED
 //@   requires canMakeHeader()
 //@   loop 1: invariant 0 <= count && count <= idx && idx <= NN()
 //@   loop 1: invariant [C02,C01] @counts count == count(j, 0, idx, curC(j))
-//@   at call d.ProcessBlock: assert [C05,C01] @once !self.blockProcessed
-//@   at call d.ProcessBlock: assert [C02] @complete arg0 == self.block && gBlockTxSet == arg0
-//@   at call d.ProcessBlock: assert [C02,C01] @certificate commitCount() >= specM(NN()) && hasAllTx() && arg0 == self.header && arg0 != nil && verc() && prop() && tip()
+//@   at call *.ProcessBlock: assert [C05,C01] @once !self.blockProcessed
+//@   at call *.ProcessBlock: assert [C02] @complete arg0 == self.block && gBlockTxSet == arg0
+//@   at call *.ProcessBlock: assert [C02,C01] @certificate commitCount() >= specM(NN()) && hasAllTx() && arg0 == self.header && arg0 != nil && verc() && prop() && tip()
 //@ callers [C02,C05,C01] Config.ProcessBlock : (*DBFT).checkCommit
 //@ writers [C05] Context.blockProcessed : (*DBFT).checkCommit, (*Context).reset
 //@ func (*DBFT).checkChangeView
+//@   loops 1
 //@   use U
-//@   at call d.makeChangeView: assert [C14] @stamp arg0 == gClock
+//@   at call *.makeChangeView: assert [C14] @stamp arg0 == gClock
 //@   use UNDECIDED
 //@   requires [C03,C01] @lock !locked()
 //@   ensures [C12] @staysOrMoves self.ViewNumber > old(self.ViewNumber) || (self.ViewNumber == old(self.ViewNumber) && unchanged(self.ChangeViewPayloads))
@@ -748,6 +781,7 @@ package dbft
 // ---- dbft.go ----
 
 //@ func (*DBFT).addTransaction
+//@   loops 0
 //@   use U
 //@   use UNDECIDED
 //@   ensures [C12] @stored implies(self.ViewNumber == old(self.ViewNumber), has(self.Transactions, tx.Hash()))
@@ -757,6 +791,7 @@ package dbft
 //@   requires tx != nil && rsor()
 //@   requires [C03] @lock !locked() && gPrep == nil
 //@ func (*DBFT).Start
+//@   loops 0
 //@   ensures [C15] @base self.lastBlockTimestamp == ts
 //@   ensures [C05] @cachePurged cachePurged()
 //@   ensures [C10] @timer implies(aview(), timerOK())
@@ -765,6 +800,7 @@ package dbft
 //@   requires ts + self.TimestampIncrement <= 18446744073709551615
 //@   use INV
 //@ func (*DBFT).Reset
+//@   loops 0
 //@   ensures [C15] @base self.lastBlockTimestamp == ts
 //@   ensures [C05] @cachePurged cachePurged()
 //@   ensures [C10] @timer implies(aview(), timerOK())
@@ -772,6 +808,7 @@ package dbft
 //@   requires ts + self.TimestampIncrement <= 18446744073709551615
 //@   use INV
 //@ func (*DBFT).initializeConsensus
+//@   loops 4
 //@   requires base() && implies(view > 0, wf() && slot() && tip() && view > self.ViewNumber)
 //@   requires [C04] @viewEvidence implies(view > 0, cvCount(view) >= specM(NN()))
 //@   requires [C15] @sameBase implies(view > 0, ts == self.lastBlockTimestamp)
@@ -830,6 +867,7 @@ package dbft
 // A-VIEW / A-RTT: the timeout arithmetic is checked for overflow only under the view bound, a bounded RTT average and a non-zero last block time
 //@   wraps * unless aview() && 0 <= self.rttEstimates.avg && self.rttEstimates.avg <= 2305843009213693952 && self.lastBlockTime != tzero() && self.lastBlockIndex < 4294967295
 //@ func (*DBFT).OnTransaction
+//@   loops 0
 //@   use U
 //@   requires tx != nil
 //@   ensures [C05] @quiescent implies(old(self.blockProcessed), quiet() && gBroadcasts == old(gBroadcasts))
@@ -842,26 +880,30 @@ package dbft
 //@   ensures [C12] @answersInKind implies(!old(has(self.Transactions, tx.Hash())) && has(self.Transactions, tx.Hash()) && self.ViewNumber == old(self.ViewNumber) && hasAllTx() && notWatchOnly() && !old(self.blockProcessed) && aview(),
 //@        self.PreparationPayloads[self.MyIndex] != nil || askedToLeave())
 //@ func (*DBFT).OnTimeout
+//@   loops 0
 //@   use U
 //@   ensures [C10] @rearm implies(aview() && height == old(self.BlockIndex) && view == old(self.ViewNumber) && !old(self.blockProcessed) && notWatchOnly(), gTimerArms > old(gTimerArms) || self.blockProcessed)
 //@   ensures [C11] @staleTimeout implies(height != old(self.BlockIndex) || view != old(self.ViewNumber), ignored())
 //@   ensures [C05] @quiescent implies(old(self.blockProcessed), quiet() && gBroadcasts == old(gBroadcasts))
 //@ func (*DBFT).OnNewTransaction
+//@   loops 0
 //@   use U
-//@   at call d.onTimeout: assert [C16] @forced arg2 == true
+//@   at call *.onTimeout: assert [C16] @forced arg2 == true
 //@   ensures [C16] @ignoredUnlessSubscribed implies(!old(self.txSubscriptionOn), quiet() && gBroadcasts == old(gBroadcasts))
 //@   ensures [C05] @quiescent implies(old(self.blockProcessed), quiet() && gBroadcasts == old(gBroadcasts))
 //@ func (*DBFT).onTimeout
+//@   loops 0
 //@   use U
 //@   ensures [C11] @staleTimeout implies(height != old(self.BlockIndex) || view != old(self.ViewNumber), ignored())
 //@   ensures [C05] @quiescent implies(old(self.blockProcessed), quiet() && gBroadcasts == old(gBroadcasts))
-//@   at call d.sendChangeView: assert [C16] @noIdleViewChange implies(self.ViewNumber == 0 && self.Config.MaxTimePerBlock != nil && self.MyIndex >= 0 && self.MyIndex != self.PrimaryIndex
+//@   at call *.sendChangeView: assert [C16] @noIdleViewChange implies(self.ViewNumber == 0 && self.Config.MaxTimePerBlock != nil && self.MyIndex >= 0 && self.MyIndex != self.PrimaryIndex
 //@        && !force && !self.txSubscriptionOn, len(gPool) != 0)
 // the proposal is forced exactly when it is due: at a view above 0, after the wait for transactions, or on the caller's demand
-//@   at call d.sendPrepareRequest: assert [C16] @forceOnlyWhenDue arg0 == (self.ViewNumber != 0 || self.txSubscriptionOn || force)
-//@   at call d.subscribeForTransactions: assert [C16] @idleBackupSubscribes self.ViewNumber == 0 && self.MyIndex != self.PrimaryIndex && !force && !self.txSubscriptionOn && len(gPool) == 0
+//@   at call *.sendPrepareRequest: assert [C16] @forceOnlyWhenDue arg0 == (self.ViewNumber != 0 || self.txSubscriptionOn || force)
+//@   at call *.subscribeForTransactions: assert [C16] @idleBackupSubscribes self.ViewNumber == 0 && self.MyIndex != self.PrimaryIndex && !force && !self.txSubscriptionOn && len(gPool) == 0
 //@   ensures [C10] @rearm implies(aview() && height == old(self.BlockIndex) && view == old(self.ViewNumber) && !old(self.blockProcessed) && notWatchOnly(), gTimerArms > old(gTimerArms) || self.blockProcessed)
 //@ func (*DBFT).OnReceive
+//@   loops 0
 //@   use U
 //@   requires msg != nil
 //@   ghost gInbound = gInbound + 1
@@ -888,6 +930,7 @@ package dbft
 //@        && old(self.ChangeViewPayloads[msg.ValidatorIndex()]) == msg && !old(self.blockProcessed), quiet())
 //@ pred admitted(msg) = msg != nil && msg.ValidatorIndex() < NN() && msg.Payload() != nil && msg.Height() == self.BlockIndex
 //@ func (*DBFT).onPrepareRequest
+//@   loops 0
 //@   use U
 //@   use UNDECIDED
 //@   requires admitted(msg) && msg.Type() == PrepareRequestType && msg.ViewNumber() <= self.ViewNumber
@@ -895,17 +938,20 @@ package dbft
 // A7 (honest identity): a proposal carrying this node's own index was made by this node, hence is already stored.
 //@   assume @A7 msg.ValidatorIndex() != self.MyIndex || rsor()
 //@ func (*DBFT).onPrepareResponse
+//@   loops 0
 //@   use U
 //@   use UNDECIDED
 //@   requires admitted(msg) && msg.Type() == PrepareResponseType && msg.ViewNumber() <= self.ViewNumber
 //@   ensures [C11] @inadmissible implies(msg.ViewNumber() != old(self.ViewNumber) || msg.ValidatorIndex() == old(self.PrimaryIndex) || old(self.PreparationPayloads[msg.ValidatorIndex()]) != nil, ignored())
 //@   assume @A7 msg.ValidatorIndex() != self.MyIndex || self.PreparationPayloads[self.MyIndex] != nil
 //@ func (*DBFT).onChangeView
+//@   loops 0
 //@   use U
 //@   use UNDECIDED
 //@   requires admitted(msg) && msg.Type() == ChangeViewType
 //@   ensures [C11] @redeliveredChangeView implies(old(self.ChangeViewPayloads[msg.ValidatorIndex()]) == msg, quiet())
 //@ func (*DBFT).onPreCommit
+//@   loops 0
 //@   use U
 //@   use UNDECIDED
 //@   requires admitted(msg) && msg.Type() == PreCommitType && msg.ViewNumber() <= self.ViewNumber
@@ -913,18 +959,21 @@ package dbft
 //@   assume @A7 msg.ValidatorIndex() != self.MyIndex || self.PreCommitPayloads[self.MyIndex] != nil
 //@   requires [C07] @enabled amev()
 // a pre-commit that arrives when the pre-block can be built is counted only after its data verified against that pre-block
-//@   at call d.checkPreCommit: assert [C02] @arrivalVerified self.preBlock != nil && curP(msg.ValidatorIndex()) && verP(msg.ValidatorIndex())
+//@   at call *.checkPreCommit: assert [C02] @arrivalVerified self.preBlock != nil && curP(msg.ValidatorIndex()) && verP(msg.ValidatorIndex())
 //@ func (*DBFT).onCommit
+//@   loops 0
 //@   use U
 //@   use UNDECIDED
 //@   requires admitted(msg) && msg.Type() == CommitType && msg.ViewNumber() <= self.ViewNumber
 //@   ensures [C11] @repeated implies(old(self.CommitPayloads[msg.ValidatorIndex()]) != nil, ignored())
 //@   assume @A7 msg.ValidatorIndex() != self.MyIndex || self.CommitPayloads[self.MyIndex] != nil
 //@ func (*DBFT).onRecoveryRequest
+//@   loops 0
 //@   use U
 //@   requires admitted(msg)
 //@   ensures [C05] @onlyRecoveryReply quiet() && (gBroadcasts == old(gBroadcasts) || (gLastBcast.Type() == RecoveryMessageType && gBroadcasts == old(gBroadcasts) + 1))
 //@ func (*DBFT).onRecoveryMessage
+//@   loops 4
 //@   use U
 //@   use UNDECIDED
 //@   requires admitted(msg) && msg.Type() == RecoveryMessageType
@@ -937,6 +986,7 @@ package dbft
 //@   loop 4: use LOOPU
 //@   loop 4: invariant 0 <= validCommits && validCommits <= idx
 //@ func (*DBFT).processMissingTx
+//@   loops 1
 //@   requires wf()
 //@   loop 1: invariant !isnil(self.Transactions) && txKept()
 //@   loop 1: invariant len(self.MissingTransactions) >= old(len(self.MissingTransactions)) && forall(j, 0, old(len(self.MissingTransactions)), self.MissingTransactions[j] == old(self.MissingTransactions[j]))
@@ -945,6 +995,7 @@ package dbft
 //@   ensures [C12] @keepsAsking len(self.MissingTransactions) >= old(len(self.MissingTransactions)) && forall(j, 0, old(len(self.MissingTransactions)), self.MissingTransactions[j] == old(self.MissingTransactions[j]))
 //@   modifies Context.MissingTransactions, Context.Transactions
 //@ func (*DBFT).createAndCheckBlock
+//@   loops 0
 //@   use U
 //@   use UNDECIDED
 //@   requires rsor() && hasAllTx()
@@ -954,6 +1005,7 @@ package dbft
 //@   ensures [C12] @rejectedAsksToLeave implies(!result && notWatchOnly() && aview(), self.ViewNumber > old(self.ViewNumber) || askedToLeave())
 //@   ensures [C04] @blockAccepted implies(result, gVerified != nil && (gVerified == self.block || gVerified == self.preBlock))
 //@ func (*DBFT).updateExistingPayloads
+//@   loops 1
 //@   requires wf() && slot() && msg != nil && !rsor() && verc() && said()
 //@   loop 1: invariant wf() && slot() && !rsor() && verc() && said()
 //@   loop 1: invariant forall(j, 0, idx, implies(self.PreparationPayloads[j] != nil && self.PreparationPayloads[j].Type() == PrepareResponseType, self.PreparationPayloads[j].GetPrepareResponse().PreparationHash() == msg.Hash()))
@@ -965,6 +1017,7 @@ package dbft
 //@   ensures [C02] @complete complete()
 //@   modifies Context.PreparationPayloads, Context.CommitPayloads, Context.PreCommitPayloads, Context.header, Context.preHeader, Context.preBlock, gPreBlockTxSet
 //@ func (*DBFT).verifyPreCommitPayloadsAgainstPreBlock
+//@   loops 1
 //@   requires wf() && slot() && said()
 //@   ensures [C03] @said said()
 //@   loop 1: invariant said()
@@ -977,6 +1030,7 @@ package dbft
 //@   ensures implies(old(self.preBlock) != nil, self.preBlock == old(self.preBlock))
 //@   modifies Context.PreCommitPayloads, Context.preHeader, Context.preBlock, gPreBlockTxSet
 //@ func (*DBFT).verifyCommitPayloadsAgainstHeader
+//@   loops 1
 //@   requires wf() && slot() && said()
 //@   ensures [C03] @said said()
 //@   loop 1: invariant said()
@@ -987,6 +1041,7 @@ package dbft
 //@   ensures [C02,C01] @verc verc()
 //@   modifies Context.CommitPayloads, Context.header
 //@ func (*DBFT).changeTimer
+//@   loops 0
 //@   requires wf()
 //@   requires [C10] @nonneg implies(aview(), delay >= 0)
 //@   ensures [C10,C11] @armed gTimerH == self.BlockIndex && gTimerV == self.ViewNumber && gTimerD == delay && gTimerArms == old(gTimerArms) + 1
@@ -996,12 +1051,14 @@ package dbft
 //@   requires [C10] @nonneg arg0 >= 0
 //@   ghost gTimerExt = gTimerExt + 1
 //@ func (*DBFT).extendTimer
+//@   loops 0
 //@   requires wf() && slot() && 0 <= count && count <= 4
 //@   modifies gTimerExt
 
 // ---- helpers.go, rtt.go ----
 
 //@ func (*cache).getHeight
+//@   loops 1
 //@   loop 1: invariant cacheOK() && forall(k2, implies(visited(k2) && k2 < h, !has(self.cache.mail, k2)))
 //@   loop 1: invariant forall(k2, implies(has(self.cache.mail, k2), rangehas(k2) && self.cache.mail[k2] == old(self.cache.mail[k2])))
 //@   loop 1: invariant forall(k2, implies(rangehas(k2) && k2 >= h, has(self.cache.mail, k2)))
@@ -1012,12 +1069,14 @@ package dbft
 //@   ensures [C05] @purged forall(k, implies(has(self.cache.mail, k), k > h && old(has(self.cache.mail, k)) && self.cache.mail[k] == old(self.cache.mail[k])))
 //@   modifies cache.mail
 //@ func (*cache).addMessage
+//@   loops 0
 //@   requires cacheOK() && m != nil
 //@   ensures cacheOK() && heapMono()
 //@   ensures forall(k, implies(has(self.cache.mail, k), old(has(self.cache.mail, k)) || k == m.Height()))
 //@   ensures [C05] @stored cached(m)
 //@   modifies cache.mail, heap inbox.*
 //@ func (*rtt).addTime
+//@   loops 0
 //@   requires 0 <= r.idx && r.idx < 70
 //@   ensures 0 <= r.idx && r.idx < 70
 //@   modifies Context.rttEstimates.*
